@@ -49,6 +49,12 @@ pub fn run(args: &Args) {
                         if map_json(&map_of(&m)) != v["map"] { res.mismatch("violation", "C13/structure", "decoded segment/azimuth/zone structure differs from the encoded one".into(), small.clone()); }
                         let (segnums, az_ok) = numbering(&m);
                         if segnums != (0..nseg as u64).collect::<Vec<_>>() || !az_ok { res.mismatch("violation", "C13/numbering", format!("segment numbers {:?}, azimuth numbering ok={}", segnums, az_ok), small.clone()); }
+                        // the generation date-time accessor: exactly epoch + (date - 1) days + minutes (DateTime.tla's InstantMin, computed by TLC)
+                        match guarded(|| m.header.date_time()) {
+                            Ok(Some(t)) => { let ms = t.timestamp_millis(); if json!([ms.div_euclid(86_400_000), ms.rem_euclid(86_400_000)]) != v["instant"] { res.mismatch("violation", "C13/generation_date_time", format!("expected {} got {}", v["instant"], t), small.clone()); } }
+                            Ok(None) => res.mismatch("violation", "C13/generation_date_time", "accessor returned None".into(), small.clone()),
+                            Err(p) => res.mismatch("violation", "C13/generation_date_time/panic", p, small.clone()),
+                        }
                         if Some(m.header.map_generation_date as u64) != v["date"].as_u64() || Some(m.header.map_generation_time as u64) != v["minutes"].as_u64() { res.mismatch("violation", "C13/header", "generation date/time fields".into(), small.clone()); }
                         // op codes 0,1,2 -> bypass, bypass-map-in-control, force
                         for s in &m.elevation_segments { for a in &s.azimuth_segments { for z in &a.range_zones {
